@@ -149,7 +149,7 @@ theorem cs_stepCore {base : List Frame} {g gc gc' : GState} {op : Op} {out : Out
     subst hp
     obtain ⟨outer, f, hfk, xf, _⟩ := alignedExit_form hs
     have : Frame.claim :: base = f :: gc'.s.frames := xf
-    rcases hfk with rfl | rfl <;> cases this
+    rcases hfk with ⟨_, rfl⟩ | rfl <;> cases this
   | claimEnd =>
     refine pop sfq_claimEnd (fun hp => ?_)
     subst hp
